@@ -335,6 +335,13 @@ def translate_search(src, hook, hash_ast=None):
                 neg = ('bin', '!=' if x[2][1] == '==' else '==', x[2][2], x[2][3])
                 ib = ib[:i] + [('if', False, neg, ('block', ib[i + 1:]), None)] + th[:-1]
             break
+    # if (a == b) { A } else { B; break; }  as the last statement   is   if (a != b) { B; break; } A
+    if ib and ib[-1][0] == 'if' and not ib[-1][1] and ib[-1][4] is not None and ib[-1][2][0] == 'bin' and ib[-1][2][1] in ('==', '!='):
+        x = ib[-1]
+        el = strip_block(x[4])
+        if el and el[-1] == ('break',) and not mc._mentions(strip_block(x[3]), 'break') and not mc._mentions(strip_block(x[3]), 'continue'):
+            neg = ('bin', '!=' if x[2][1] == '==' else '==', x[2][2], x[2][3])
+            ib = ib[:-1] + [('if', False, neg, ('block', el), None)] + strip_block(x[3])
     ifs = [i for i, x in enumerate(ib) if x[0] == 'if' and not x[1]]
     if len(ifs) != 1 or ib[ifs[0]][4] is not None:
         raise mc.Unsupported('hash_initialize: the id loop must contain exactly one if without else (the occupancy test)')
@@ -437,6 +444,10 @@ def main():
         if (len(st) > 3 and st[1][0] == 'if' and not st[1][1] and st[1][4] is None and strip_block(st[1][3]) == [('return', ('id', 'index'))]
                 and st[-1] == ('expr', ('call', ('id', 'abort'), []))):
             st = [st[0], ('if', False, ('un', '!', st[1][2]), ('block', st[2:]), None), ('return', ('id', 'index'))]
+        # const bool ok = E; if (... ok ...)   reads as the test on E itself (E is pure: comparisons of index, hash_length, control[index], type)
+        if (len(st) == 4 and st[1][0] == 'decl' and st[1][1] in ('const bool', 'bool', 'const auto', 'auto') and len(st[1][2]) == 1 and st[1][2][0][1] is not None
+                and st[2][0] == 'if' and not mc._mentions(st[2][3:], st[1][2][0][0]) and not mc._mentions(st[3], st[1][2][0][0]) and mc._simple(st[1][2][0][1])):
+            st = [st[0], ('if', st[2][1], mc._subst_ids(st[2][2], {st[1][2][0][0]: st[1][2][0][1]}), st[2][3], st[2][4]), st[3]]
         okc = (len(st) == 3 and st[0][0] == 'decl' and st[0][2][0][0] == 'index'
                and st[0][2][0][1] == ('call', ('scoped', ('tmpl', 'fast_perfect_hash', ['Policy']), 'hash_type_id'), [('id', 'type')])
                and st[1][0] == 'if' and not st[1][1] and st[1][4] is None and st[2] == ('return', ('id', 'index')))
